@@ -1,1 +1,873 @@
-(* Proofs/WriterFacts.v -- lemmas; see DESIGN.md section 7 *)
+(* Proofs/WriterFacts.v -- property C20: the RSTWriter model (Model/Writer.v).
+   S0 string lemmas (split_on / join / concat), S1 to_text is pure and repeatable,
+   S2 title frame, S3 indentation of every line inside nested directives,
+   S4 options before content (+ API level commutation), S5 order of elements,
+   S6 stability of handles. *)
+From Coq Require Import String List NArith Bool Arith Lia.
+From CMinx Require Import Base.Str Model.Writer.
+Import ListNotations.
+
+(* ---- spec ---- *)
+
+(* Python  x.split(newline)  *)
+Definition lines (x : str) : list str := split_on nl x.
+
+Definition no_nl (x : str) : bool := negb (mem nl x).
+Definition opt_ok (o : str * str) : bool := no_nl (fst o) && no_nl (snd o).
+
+(* no Sect and no DocTest anywhere inside e; field names/texts, list items, directive
+   names/arguments, option names/values contain no newline.  Paragraph text is arbitrary. *)
+Fixpoint plain (e : elem) : bool :=
+  match e with
+  | Para _ => true
+  | Field n t => no_nl n && no_nl t
+  | RList _ items => forallb no_nl items
+  | DocTest _ _ => false
+  | Dir n a o b => no_nl n && forallb no_nl a && forallb opt_ok o && forallb plain b
+  | Sect _ _ => false
+  end.
+
+(* a line is empty or starts with the 3*d spaces of depth d *)
+Definition ind_ok (d : nat) (l : str) : Prop := l = [] \/ startswith (indent d) l = true.
+
+(* the single lines the simple elements consist of *)
+Definition dir_head_line (d : nat) (n : str) (a : list str) : str :=
+  indent d ++ s".. " ++ n ++ s":: " ++ join (s",") a.
+Definition field_line (d : nat) (n t : str) : str := indent d ++ s":" ++ n ++ s": " ++ t.
+Definition bullet_line (d : nat) (x : str) : str := indent d ++ s"* " ++ x.
+Definition enum_line (d : nat) (k : nat) (x : str) : str :=
+  indent d ++ dec_of_nat k ++ s". " ++ x.
+Definition enum_lines (d i : nat) (items : list str) : list str :=
+  map (fun p => enum_line d (fst p) (snd p)) (combine (seq i (length items)) items).
+
+(* all lines of a directive after the empty line and the heading line *)
+Definition dir_rest_lines (hdrs : list str) (d : nat) (o : list (str * str)) (b : list elem)
+  : list str :=
+  concat (map (fun x => lines (option_text (S d) x)) o)
+  ++ (match b with [] => [] | _ :: _ => [[]] end)
+  ++ concat (map (fun x => lines (elem_text hdrs 0 (S d) x)) b) ++ [[]].
+
+Definition is_totext (o : wop) : bool :=
+  match o with OToText _ => true | _ => false end.
+
+(* the five content operations that go through add_child without returning a handle *)
+Definition content_op (o : wop) : option (handle * elem) :=
+  match o with
+  | OText h t => Some (h, Para t)
+  | OField h n t => Some (h, Field n t)
+  | OBullets h items => Some (h, RList false items)
+  | OEnum h items => Some (h, RList true items)
+  | ODocTest h l x => Some (h, DocTest l x)
+  | _ => None
+  end.
+
+Fixpoint is_prefix (a b : list nat) : bool :=
+  match a, b with
+  | [], _ => true
+  | x :: a', y :: b' => Nat.eqb x y && is_prefix a' b'
+  | _ :: _, [] => false
+  end.
+
+(* ------------------------------------------------------------------ *)
+(* S0: strings                                                          *)
+
+Lemma split_on_nonempty : forall c x, split_on c x <> [].
+Proof.
+  intros c x. destruct x as [|a r]; cbn [split_on]; [discriminate|].
+  destruct (N.eqb a c); [discriminate|].
+  destruct (split_on c r); discriminate.
+Qed.
+
+Lemma split_on_cons_eq : forall c r, split_on c (c :: r) = [] :: split_on c r.
+Proof. intros c r. cbn [split_on]. rewrite N.eqb_refl. reflexivity. Qed.
+
+Lemma split_on_cons_ne : forall c a r, a <> c ->
+  split_on c (a :: r) = (a :: hd [] (split_on c r)) :: tl (split_on c r).
+Proof.
+  intros c a r H. cbn [split_on]. destruct (N.eqb_spec a c) as [E|E]; [contradiction|].
+  destruct (split_on c r) eqn:Er; [exfalso; eapply split_on_nonempty; eauto | reflexivity].
+Qed.
+
+(* the exact law for a separator in the middle, for arbitrary a *)
+Lemma split_on_app_sep : forall c a b,
+  split_on c (a ++ c :: b) = split_on c a ++ split_on c b.
+Proof.
+  intros c a b. induction a as [|x a IH].
+  - cbn [app]. rewrite split_on_cons_eq. reflexivity.
+  - cbn [app]. destruct (N.eqb_spec x c) as [E|E].
+    + subst x. rewrite !split_on_cons_eq, IH. reflexivity.
+    + rewrite !split_on_cons_ne by assumption. rewrite IH.
+      destruct (split_on c a) eqn:Ea; [exfalso; eapply split_on_nonempty; eauto|].
+      reflexivity.
+Qed.
+
+Lemma mem_app : forall c a b, mem c (a ++ b) = mem c a || mem c b.
+Proof.
+  intros c a b. induction a as [|x a IH]; cbn [app mem]; [reflexivity|].
+  rewrite IH, orb_assoc. reflexivity.
+Qed.
+
+Lemma mem_In : forall c a, mem c a = true <-> In c a.
+Proof.
+  intros c a. induction a as [|x a IH]; cbn [mem In].
+  - split; [discriminate | intros []].
+  - rewrite orb_true_iff, IH, N.eqb_eq. split; intros [H|H]; auto.
+Qed.
+
+Lemma split_on_no_sep : forall c a, mem c a = false -> split_on c a = [a].
+Proof.
+  intros c a. induction a as [|x a IH]; intros H; [reflexivity|].
+  cbn [mem] in H. apply orb_false_iff in H. destruct H as [H1 H2].
+  apply N.eqb_neq in H1.
+  rewrite split_on_cons_ne by congruence. rewrite (IH H2). reflexivity.
+Qed.
+
+Lemma split_on_no_sep_In : forall c a, ~ In c a -> split_on c a = [a].
+Proof.
+  intros c a H. apply split_on_no_sep. destruct (mem c a) eqn:E; [|reflexivity].
+  apply mem_In in E. contradiction.
+Qed.
+
+Lemma split_on_parts_no_sep : forall c x, Forall (fun l => mem c l = false) (split_on c x).
+Proof.
+  intros c x. induction x as [|a r IH].
+  - constructor; [reflexivity | constructor].
+  - destruct (N.eqb_spec a c) as [E|E].
+    + subst a. rewrite split_on_cons_eq. constructor; [reflexivity | exact IH].
+    + rewrite split_on_cons_ne by assumption.
+      destruct (split_on c r) as [|h t] eqn:Er; [exfalso; eapply split_on_nonempty; eauto|].
+      inversion IH as [|h' t' Hh Ht]; subst. cbn [hd tl]. constructor; [|exact Ht].
+      cbn [mem]. rewrite Hh, orb_false_r. apply N.eqb_neq. congruence.
+Qed.
+
+Lemma join_split : forall c x, join [c] (split_on c x) = x.
+Proof.
+  intros c x. induction x as [|a r IH]; [reflexivity|].
+  destruct (N.eqb_spec a c) as [E|E].
+  - subst a. rewrite split_on_cons_eq.
+    destruct (split_on c r) as [|h t] eqn:Er; [exfalso; eapply split_on_nonempty; eauto|].
+    change (join [c] ([] :: h :: t)) with ([] ++ [c] ++ join [c] (h :: t)).
+    cbn [app]. rewrite IH. reflexivity.
+  - rewrite split_on_cons_ne by assumption.
+    destruct (split_on c r) as [|h t] eqn:Er; [exfalso; eapply split_on_nonempty; eauto|].
+    cbn [hd tl]. destruct t as [|h2 t].
+    + cbn [join] in *. subst r. reflexivity.
+    + change (join [c] ((a :: h) :: h2 :: t)) with (a :: (h ++ [c] ++ join [c] (h2 :: t))).
+      change (join [c] (h :: h2 :: t)) with (h ++ [c] ++ join [c] (h2 :: t)) in IH.
+      rewrite IH. reflexivity.
+Qed.
+
+Lemma split_join : forall c ls, Forall (fun l => mem c l = false) ls -> ls <> [] ->
+  split_on c (join [c] ls) = ls.
+Proof.
+  intros c ls H. induction H as [|x r Hx Hr IH]; intros Hne; [congruence|].
+  destruct r as [|y r'].
+  - cbn [join]. apply split_on_no_sep; assumption.
+  - change (join [c] (x :: y :: r')) with (x ++ c :: join [c] (y :: r')).
+    rewrite split_on_app_sep, IH by discriminate.
+    rewrite split_on_no_sep by assumption. reflexivity.
+Qed.
+
+(* re-assembling the lines, each followed by the separator *)
+Lemma concat_split : forall c x,
+  concat (map (fun l => l ++ [c]) (split_on c x)) = x ++ [c].
+Proof.
+  intros c x. induction x as [|a r IH]; [reflexivity|].
+  destruct (N.eqb_spec a c) as [E|E].
+  - subst a. rewrite split_on_cons_eq. cbn [map concat app]. rewrite IH. reflexivity.
+  - rewrite split_on_cons_ne by assumption.
+    destruct (split_on c r) as [|h t] eqn:Er; [exfalso; eapply split_on_nonempty; eauto|].
+    cbn [hd tl map concat app] in *. rewrite IH. reflexivity.
+Qed.
+
+Lemma repeat_str_single : forall n c, repeat_str n [c] = repeat c n.
+Proof. intros n c. induction n as [|n IH]; cbn [repeat_str repeat app]; congruence. Qed.
+
+Lemma length_repeat_str_single : forall n c, length (repeat_str n [c]) = n.
+Proof. intros n c. rewrite repeat_str_single. apply repeat_length. Qed.
+
+Lemma mem_repeat : forall c x n, c <> x -> mem c (repeat x n) = false.
+Proof.
+  intros c x n H. induction n as [|n IH]; [reflexivity|].
+  cbn [repeat mem]. rewrite IH, orb_false_r. apply N.eqb_neq. exact H.
+Qed.
+
+Lemma no_nl_app : forall a b, no_nl (a ++ b) = no_nl a && no_nl b.
+Proof. intros a b. unfold no_nl. rewrite mem_app, negb_orb. reflexivity. Qed.
+
+Lemma no_nl_indent : forall d, no_nl (indent d) = true.
+Proof.
+  intros d. unfold no_nl, indent, spaces. rewrite mem_repeat; [reflexivity|].
+  unfold nl, sp. discriminate.
+Qed.
+
+Lemma no_nl_join : forall sep l, no_nl sep = true -> forallb no_nl l = true ->
+  no_nl (join sep l) = true.
+Proof.
+  intros sep l Hs. induction l as [|x r IH]; intros H; [reflexivity|].
+  cbn [forallb] in H. apply andb_true_iff in H. destruct H as [Hx Hr].
+  destruct r as [|y r']; [exact Hx|].
+  change (join sep (x :: y :: r')) with (x ++ sep ++ join sep (y :: r')).
+  rewrite !no_nl_app, Hx, Hs, (IH Hr). reflexivity.
+Qed.
+
+Lemma mem_dec_go : forall f n acc, mem nl (dec_go f n acc) = mem nl acc.
+Proof.
+  intros f. induction f as [|f IH]; intros n acc; [reflexivity|].
+  cbn [dec_go].
+  assert (E : mem nl (digit_char (n mod 10) :: acc) = mem nl acc).
+  { cbn [mem]. replace (N.eqb nl (digit_char (n mod 10))) with false; [reflexivity|].
+    symmetry. apply N.eqb_neq. unfold nl, digit_char. lia. }
+  destruct (n / 10 =? 0); [exact E|]. rewrite IH. exact E.
+Qed.
+
+Lemma no_nl_dec : forall n, no_nl (dec_of_nat n) = true.
+Proof. intros n. unfold no_nl, dec_of_nat. rewrite mem_dec_go. reflexivity. Qed.
+
+Lemma startswith_app_self : forall p x, startswith p (p ++ x) = true.
+Proof.
+  intros p x. induction p as [|a p IH]; [reflexivity|].
+  cbn [app startswith]. rewrite N.eqb_refl. exact IH.
+Qed.
+
+Lemma startswith_app_l : forall p q x, startswith (p ++ q) x = true -> startswith p x = true.
+Proof.
+  intros p q. induction p as [|a p IH]; intros x H; [reflexivity|].
+  destruct x as [|b x]; cbn [app startswith] in *; [discriminate|].
+  apply andb_true_iff in H. destruct H as [H1 H2]. rewrite H1. exact (IH _ H2).
+Qed.
+
+Lemma indent_S : forall d, indent (S d) = indent d ++ spaces 3.
+Proof.
+  intros d. unfold indent, spaces, indent_unit.
+  replace (3 * S d) with (3 * d + 3) by lia. apply repeat_app.
+Qed.
+
+Lemma length_indent : forall d, length (indent d) = 3 * d.
+Proof. intros d. unfold indent, spaces, indent_unit. apply repeat_length. Qed.
+
+Lemma ind_ok_weaken : forall d l, ind_ok (S d) l -> ind_ok d l.
+Proof.
+  intros d l [H|H]; [left; exact H | right].
+  rewrite indent_S in H. exact (startswith_app_l _ _ _ H).
+Qed.
+
+Lemma ind_ok_indent_app : forall d x, ind_ok d (indent d ++ x).
+Proof. intros d x. right. apply startswith_app_self. Qed.
+
+(* ---- lines ---- *)
+
+Lemma lines_app_nl : forall a b, lines (a ++ nl :: b) = lines a ++ lines b.
+Proof. intros a b. apply split_on_app_sep. Qed.
+
+Lemma lines_nl_cons : forall b, lines (nl :: b) = [] :: lines b.
+Proof. intros b. apply split_on_cons_eq. Qed.
+
+Lemma lines_no_nl : forall x, no_nl x = true -> lines x = [x].
+Proof.
+  intros x H. apply split_on_no_sep. unfold no_nl in H.
+  destruct (mem nl x); [discriminate | reflexivity].
+Qed.
+
+Lemma lines_nonempty : forall x, lines x <> [].
+Proof. intros x. apply split_on_nonempty. Qed.
+
+Lemma join_lines : forall x, join [nl] (lines x) = x.
+Proof. intros x. apply join_split. Qed.
+
+(* a sequence of chunks each terminated by a newline *)
+Lemma lines_chunks : forall (A : Type) (f : A -> str) (l : list A) (rest : str),
+  lines (concat (map (fun x => f x ++ [nl]) l) ++ rest)
+  = concat (map (fun x => lines (f x)) l) ++ lines rest.
+Proof.
+  intros A f l rest. induction l as [|x r IH]; [reflexivity|].
+  cbn [map concat]. rewrite <- !app_assoc. cbn [app].
+  rewrite lines_app_nl, IH, app_assoc. reflexivity.
+Qed.
+
+Lemma lines_body_text : forall hdrs lvl d b,
+  lines (body_text hdrs lvl d b)
+  = concat (map (fun x => lines (elem_text hdrs lvl d x)) b) ++ [[]].
+Proof.
+  intros hdrs lvl d b. unfold body_text.
+  rewrite <- (app_nil_r (concat (map (fun x => elem_text hdrs lvl d x ++ [nl]) b))).
+  rewrite lines_chunks. reflexivity.
+Qed.
+
+Lemma concat_map_singleton : forall (A B : Type) (g : A -> list B) (f : A -> B) (l : list A),
+  (forall x, In x l -> g x = [f x]) -> concat (map g l) = map f l.
+Proof.
+  intros A B g f l. induction l as [|x r IH]; intros H; [reflexivity|].
+  cbn [map concat]. rewrite (H x (or_introl eq_refl)), IH; [reflexivity|].
+  intros y Hy. apply H. right. exact Hy.
+Qed.
+
+Lemma Forall_concat_map : forall (A B : Type) (P : B -> Prop) (g : A -> list B) (l : list A),
+  (forall x, In x l -> Forall P (g x)) -> Forall P (concat (map g l)).
+Proof.
+  intros A B P g l. induction l as [|x r IH]; intros H; [constructor|].
+  cbn [map concat]. apply Forall_app. split.
+  - apply H. left. reflexivity.
+  - apply IH. intros y Hy. apply H. right. exact Hy.
+Qed.
+
+(* induction principle for elem with the nested lists *)
+Definition elem_ind2 (P : elem -> Prop)
+  (HPara : forall t, P (Para t))
+  (HField : forall n t, P (Field n t))
+  (HList : forall en items, P (RList en items))
+  (HDoc : forall l x, P (DocTest l x))
+  (HDir : forall n a o b, Forall P b -> P (Dir n a o b))
+  (HSect : forall t b, Forall P b -> P (Sect t b))
+  : forall e, P e :=
+  fix go (e : elem) : P e :=
+    match e with
+    | Para t => HPara t
+    | Field n t => HField n t
+    | RList en items => HList en items
+    | DocTest l x => HDoc l x
+    | Dir n a o b =>
+        HDir n a o b ((fix gl (l : list elem) : Forall P l :=
+                         match l with
+                         | [] => Forall_nil P
+                         | x :: r => Forall_cons x (go x) (gl r)
+                         end) b)
+    | Sect t b =>
+        HSect t b ((fix gl (l : list elem) : Forall P l :=
+                      match l with
+                      | [] => Forall_nil P
+                      | x :: r => Forall_cons x (go x) (gl r)
+                      end) b)
+    end.
+
+(* ------------------------------------------------------------------ *)
+(* S2: the title frame                                                  *)
+
+Theorem heading_frame : forall c title,
+  heading_text [c] title
+  = [nl] ++ repeat c (length title) ++ [nl] ++ title ++ [nl] ++ repeat c (length title).
+Proof. intros c title. unfold heading_text. rewrite repeat_str_single. reflexivity. Qed.
+
+Theorem heading_frame_lines : forall c title, c <> nl -> no_nl title = true ->
+  lines (heading_text [c] title)
+  = [[]; repeat c (length title); title; repeat c (length title)].
+Proof.
+  intros c title Hc Ht. rewrite heading_frame. cbn [app].
+  assert (Hbar : no_nl (repeat c (length title)) = true).
+  { unfold no_nl. rewrite mem_repeat; [reflexivity | congruence]. }
+  rewrite lines_nl_cons, lines_app_nl, lines_app_nl, !lines_no_nl by assumption.
+  reflexivity.
+Qed.
+
+Lemma no_nl_repeat_str : forall n hc, no_nl hc = true -> no_nl (repeat_str n hc) = true.
+Proof.
+  intros n hc H. induction n as [|n IH]; [reflexivity|].
+  cbn [repeat_str]. rewrite no_nl_app, H, IH. reflexivity.
+Qed.
+
+(* any heading string (also more than one character per column) *)
+Theorem heading_lines_gen : forall hc title, no_nl hc = true -> no_nl title = true ->
+  lines (heading_text hc title)
+  = [[]; repeat_str (length title) hc; title; repeat_str (length title) hc].
+Proof.
+  intros hc title Hc Ht. unfold heading_text. cbn [app].
+  pose proof (no_nl_repeat_str (length title) hc Hc) as Hbar.
+  rewrite lines_nl_cons, lines_app_nl, lines_app_nl, !lines_no_nl by assumption.
+  reflexivity.
+Qed.
+
+Theorem doc_text_starts_with_frame : forall hdrs title body,
+  doc_text hdrs title body
+  = heading_text (nth 0 hdrs []) title ++ [nl] ++ body_text hdrs 0 0 body.
+Proof. reflexivity. Qed.
+
+Theorem sect_uses_next_level : forall hdrs lvl d title body,
+  elem_text hdrs lvl d (Sect title body)
+  = heading_text (nth (S lvl) hdrs []) title ++ [nl] ++ body_text hdrs (S lvl) 0 body.
+Proof. reflexivity. Qed.
+
+Theorem retitle_reframes : forall hdrs st t',
+  wstep hdrs st (OSetTitle [] t') = ({| w_title := t'; w_body := w_body st |}, WNone).
+Proof. reflexivity. Qed.
+
+Theorem retitle_then_text : forall hdrs st t',
+  snd (wstep hdrs (fst (wstep hdrs st (OSetTitle [] t'))) (OToText []))
+  = WText (heading_text (nth 0 hdrs []) t' ++ [nl] ++ body_text hdrs 0 0 (w_body st)).
+Proof. reflexivity. Qed.
+
+Theorem clear_keeps_title : forall hdrs st,
+  wstep hdrs st (OClear []) = ({| w_title := w_title st; w_body := [] |}, WNone).
+Proof. reflexivity. Qed.
+
+(* ------------------------------------------------------------------ *)
+(* S1: to_text is pure and repeatable                                   *)
+
+Theorem to_text_pure : forall hdrs st h, fst (wstep hdrs st (OToText h)) = st.
+Proof.
+  intros hdrs st h. cbn [wstep]. destruct h as [|i p]; [reflexivity|].
+  destruct (node_at (i :: p) st) as [[[e lvl] d]|]; [|reflexivity].
+  destruct e; reflexivity.
+Qed.
+
+Theorem wrun_app : forall hdrs st a b,
+  wrun hdrs st (a ++ b)
+  = (fst (wrun hdrs (fst (wrun hdrs st a)) b),
+     snd (wrun hdrs st a) ++ snd (wrun hdrs (fst (wrun hdrs st a)) b)).
+Proof.
+  intros hdrs st a b. revert st. induction a as [|o r IH]; intros st.
+  - cbn [app wrun fst snd]. destruct (wrun hdrs st b); reflexivity.
+  - cbn [app wrun]. destruct (wstep hdrs st o) as [st1 out] eqn:E1.
+    rewrite IH. destruct (wrun hdrs st1 r) as [st2 outs] eqn:E2. cbn [fst snd].
+    reflexivity.
+Qed.
+
+Theorem to_text_run_pure : forall hdrs ops st, forallb is_totext ops = true ->
+  fst (wrun hdrs st ops) = st.
+Proof.
+  intros hdrs ops. induction ops as [|o r IH]; intros st H; [reflexivity|].
+  cbn [forallb] in H. apply andb_true_iff in H. destruct H as [Ho Hr].
+  cbn [wrun]. destruct (wstep hdrs st o) as [st1 out] eqn:E1.
+  destruct (wrun hdrs st1 r) as [st2 outs] eqn:E2. cbn [fst].
+  destruct o; try discriminate Ho.
+  pose proof (to_text_pure hdrs st h) as Hp. rewrite E1 in Hp. cbn [fst] in Hp. subst st1.
+  specialize (IH st Hr). rewrite E2 in IH. exact IH.
+Qed.
+
+(* every to_text in a run of to_text calls answers exactly what a single call answers *)
+Theorem to_text_run_outputs : forall hdrs ops st, forallb is_totext ops = true ->
+  snd (wrun hdrs st ops) = map (fun o => snd (wstep hdrs st o)) ops.
+Proof.
+  intros hdrs ops. induction ops as [|o r IH]; intros st H; [reflexivity|].
+  cbn [forallb] in H. apply andb_true_iff in H. destruct H as [Ho Hr].
+  cbn [wrun map]. destruct (wstep hdrs st o) as [st1 out] eqn:E1.
+  destruct (wrun hdrs st1 r) as [st2 outs] eqn:E2. cbn [snd].
+  destruct o; try discriminate Ho.
+  pose proof (to_text_pure hdrs st h) as Hp. rewrite E1 in Hp. cbn [fst] in Hp. subst st1.
+  specialize (IH st Hr). rewrite E2 in IH. cbn [snd] in IH. rewrite IH. reflexivity.
+Qed.
+
+Theorem to_text_repeatable : forall hdrs st ops h, forallb is_totext ops = true ->
+  fst (wrun hdrs st (OToText h :: ops ++ [OToText h])) = st /\
+  exists out outs, snd (wrun hdrs st (OToText h :: ops ++ [OToText h]))
+                   = out :: outs ++ [out].
+Proof.
+  intros hdrs st ops h H.
+  assert (Hall : forallb is_totext (OToText h :: ops ++ [OToText h]) = true).
+  { cbn [forallb is_totext]. rewrite forallb_app, H. reflexivity. }
+  split; [apply to_text_run_pure; exact Hall|].
+  rewrite to_text_run_outputs by exact Hall.
+  exists (snd (wstep hdrs st (OToText h))), (map (fun o => snd (wstep hdrs st o)) ops).
+  cbn [map]. rewrite map_app. reflexivity.
+Qed.
+
+(* ------------------------------------------------------------------ *)
+(* S5 (text level): order of elements                                   *)
+
+Theorem body_text_app : forall hdrs lvl d b1 b2,
+  body_text hdrs lvl d (b1 ++ b2) = body_text hdrs lvl d b1 ++ body_text hdrs lvl d b2.
+Proof. intros. unfold body_text. rewrite map_app, concat_app. reflexivity. Qed.
+
+Theorem order_preserved : forall hdrs t b x,
+  doc_text hdrs t (b ++ [x]) = doc_text hdrs t b ++ elem_text hdrs 0 0 x ++ [nl].
+Proof.
+  intros. unfold doc_text. rewrite body_text_app, <- !app_assoc.
+  unfold body_text at 2. cbn [map concat]. rewrite app_nil_r. reflexivity.
+Qed.
+
+(* ------------------------------------------------------------------ *)
+(* S4 (text level): options directly after the heading, before content *)
+
+Theorem options_before_content : forall hdrs lvl d n a opts body,
+  elem_text hdrs lvl d (Dir n a opts body)
+  = dir_heading d n a ++ [nl]
+    ++ concat (map (fun o => option_text (S d) o ++ [nl]) opts)
+    ++ (match body with [] => [] | _ :: _ => [nl] end)
+    ++ body_text hdrs 0 (S d) body.
+Proof. reflexivity. Qed.
+
+(* ------------------------------------------------------------------ *)
+(* S3: every line inside directives nested d deep starts with 3*d spaces *)
+
+(* a paragraph: every line, in order, prefixed by exactly 3*d spaces (no side condition) *)
+Theorem para_lines : forall d t,
+  lines (para_text d t) = map (fun l => indent d ++ l) (lines t).
+Proof.
+  intros d t. unfold para_text, lines. apply split_join.
+  - apply Forall_forall. intros x Hx. apply in_map_iff in Hx.
+    destruct Hx as [l [Hl Hin]]. subst x.
+    pose proof (split_on_parts_no_sep nl t) as Hall.
+    rewrite Forall_forall in Hall. specialize (Hall l Hin).
+    rewrite mem_app, Hall, orb_false_r.
+    pose proof (no_nl_indent d) as Hi. unfold no_nl in Hi.
+    destruct (mem nl (indent d)); [discriminate | reflexivity].
+  - destruct (split_on nl t) eqn:E; [exfalso; eapply split_on_nonempty; eauto | discriminate].
+Qed.
+
+Theorem field_lines : forall d n t, no_nl n = true -> no_nl t = true ->
+  lines (field_text d n t) = [[]; field_line d n t].
+Proof.
+  intros d n t Hn Ht. unfold field_text. cbn [app]. rewrite lines_nl_cons.
+  rewrite lines_no_nl; [reflexivity|].
+  rewrite !no_nl_app, no_nl_indent, Hn, Ht. reflexivity.
+Qed.
+
+Lemma bullet_items_concat : forall d items,
+  bullet_items d items = concat (map (fun x => bullet_line d x ++ [nl]) items).
+Proof.
+  intros d items. induction items as [|x r IH]; [reflexivity|].
+  cbn [bullet_items map concat]. rewrite IH. unfold bullet_line.
+  rewrite <- !app_assoc. reflexivity.
+Qed.
+
+Lemma enum_items_concat : forall d items i,
+  enum_items d i items
+  = concat (map (fun p => enum_line d (fst p) (snd p) ++ [nl])
+                (combine (seq i (length items)) items)).
+Proof.
+  intros d items. induction items as [|x r IH]; intros i; [reflexivity|].
+  cbn [enum_items length seq combine map concat fst snd]. rewrite IH. unfold enum_line.
+  rewrite <- !app_assoc. reflexivity.
+Qed.
+
+Theorem bullet_lines : forall d items, forallb no_nl items = true ->
+  lines (list_text d false items) = [] :: map (bullet_line d) items ++ [[]].
+Proof.
+  intros d items H. unfold list_text. cbn [app]. rewrite lines_nl_cons.
+  rewrite bullet_items_concat.
+  rewrite <- (app_nil_r (concat (map (fun x => bullet_line d x ++ [nl]) items))).
+  rewrite lines_chunks. f_equal. f_equal.
+  apply concat_map_singleton. intros x Hx. apply lines_no_nl.
+  rewrite forallb_forall in H. unfold bullet_line.
+  rewrite !no_nl_app, no_nl_indent, (H x Hx). reflexivity.
+Qed.
+
+Theorem enum_lines_exact : forall d items, forallb no_nl items = true ->
+  lines (list_text d true items) = [] :: enum_lines d 1 items ++ [[]].
+Proof.
+  intros d items H. unfold list_text, enum_lines. cbn [app]. rewrite lines_nl_cons.
+  rewrite enum_items_concat.
+  rewrite <- (app_nil_r (concat (map _ (combine (seq 1 (length items)) items)))).
+  rewrite (lines_chunks _ (fun p => enum_line d (fst p) (snd p))). f_equal. f_equal.
+  apply concat_map_singleton. intros [k x] Hx. apply lines_no_nl.
+  apply in_combine_r in Hx. rewrite forallb_forall in H. unfold enum_line. cbn [fst snd].
+  rewrite !no_nl_app, no_nl_indent, no_nl_dec, (H x Hx). reflexivity.
+Qed.
+
+Lemma no_nl_dir_head_line : forall d n a, no_nl n = true -> forallb no_nl a = true ->
+  no_nl (dir_head_line d n a) = true.
+Proof.
+  intros d n a Hn Ha. unfold dir_head_line.
+  rewrite !no_nl_app, no_nl_indent, Hn, (no_nl_join (s",") a eq_refl Ha). reflexivity.
+Qed.
+
+(* exact line structure of a directive, no side condition *)
+Theorem dir_lines_gen : forall hdrs lvl d n a o b,
+  lines (elem_text hdrs lvl d (Dir n a o b))
+  = [] :: lines (dir_head_line d n a) ++ dir_rest_lines hdrs d o b.
+Proof.
+  intros hdrs lvl d n a o b. rewrite options_before_content.
+  change (dir_heading d n a) with (nl :: dir_head_line d n a).
+  cbn [app]. rewrite lines_nl_cons, lines_app_nl. f_equal. f_equal.
+  rewrite lines_chunks. unfold dir_rest_lines. f_equal.
+  destruct b as [|x r].
+  - reflexivity.
+  - change ([nl] ++ body_text hdrs 0 (S d) (x :: r)) with (nl :: body_text hdrs 0 (S d) (x :: r)).
+    rewrite lines_nl_cons, lines_body_text. reflexivity.
+Qed.
+
+(* the empty line, then the heading line `.. name:: args`, then the rest *)
+Theorem dir_lines : forall hdrs lvl d n a o b, no_nl n = true -> forallb no_nl a = true ->
+  lines (elem_text hdrs lvl d (Dir n a o b))
+  = [] :: dir_head_line d n a :: dir_rest_lines hdrs d o b.
+Proof.
+  intros hdrs lvl d n a o b Hn Ha. rewrite dir_lines_gen.
+  rewrite (lines_no_nl _ (no_nl_dir_head_line d n a Hn Ha)). reflexivity.
+Qed.
+
+Theorem option_lines : forall d o, opt_ok o = true ->
+  lines (option_text d o) = [field_line d (fst o) (snd o)].
+Proof.
+  intros d o H. unfold opt_ok in H. apply andb_true_iff in H. destruct H as [H1 H2].
+  change (field_line d (fst o) (snd o)) with (option_text d o).
+  apply lines_no_nl. unfold option_text.
+  rewrite !no_nl_app, no_nl_indent, H1, H2. reflexivity.
+Qed.
+
+Lemma dir_rest_deeper : forall hdrs d o b,
+  forallb opt_ok o = true ->
+  Forall (fun x => Forall (ind_ok (S d)) (lines (elem_text hdrs 0 (S d) x))) b ->
+  Forall (ind_ok (S d)) (dir_rest_lines hdrs d o b).
+Proof.
+  intros hdrs d o b Ho Hb. unfold dir_rest_lines.
+  apply Forall_app. split; [|apply Forall_app; split; [|apply Forall_app; split]].
+  - apply Forall_concat_map. intros x Hx. rewrite forallb_forall in Ho.
+    rewrite (option_lines _ _ (Ho x Hx)). constructor; [|constructor].
+    unfold field_line. apply ind_ok_indent_app.
+  - destruct b; [constructor|]. constructor; [left; reflexivity | constructor].
+  - apply Forall_concat_map. intros x Hx. rewrite Forall_forall in Hb. exact (Hb x Hx).
+  - constructor; [left; reflexivity | constructor].
+Qed.
+
+(* MAIN: every line of a plain element at depth d is empty or starts with 3*d spaces *)
+Theorem lines_indented : forall hdrs lvl d e, plain e = true ->
+  Forall (ind_ok d) (lines (elem_text hdrs lvl d e)).
+Proof.
+  intros hdrs lvl d e. revert lvl d.
+  induction e as [t|n t|en items|l x|n a o b IH|t b IH] using elem_ind2; intros lvl d Hp.
+  - cbn [elem_text]. rewrite para_lines. apply Forall_forall. intros x Hx.
+    apply in_map_iff in Hx. destruct Hx as [y [Hy _]]. subst x. apply ind_ok_indent_app.
+  - cbn [plain] in Hp. apply andb_true_iff in Hp. destruct Hp as [Hn Ht].
+    cbn [elem_text]. rewrite field_lines by assumption.
+    constructor; [left; reflexivity|]. constructor; [|constructor].
+    unfold field_line. apply ind_ok_indent_app.
+  - cbn [plain] in Hp. cbn [elem_text]. destruct en.
+    + rewrite enum_lines_exact by assumption. constructor; [left; reflexivity|].
+      apply Forall_app. split; [|constructor; [left; reflexivity | constructor]].
+      unfold enum_lines. apply Forall_forall. intros y Hy. apply in_map_iff in Hy.
+      destruct Hy as [p [Hp' _]]. subst y. unfold enum_line. apply ind_ok_indent_app.
+    + rewrite bullet_lines by assumption. constructor; [left; reflexivity|].
+      apply Forall_app. split; [|constructor; [left; reflexivity | constructor]].
+      apply Forall_forall. intros y Hy. apply in_map_iff in Hy.
+      destruct Hy as [p [Hp' _]]. subst y. unfold bullet_line. apply ind_ok_indent_app.
+  - discriminate Hp.
+  - cbn [plain] in Hp. apply andb_true_iff in Hp. destruct Hp as [Hp Hb].
+    apply andb_true_iff in Hp. destruct Hp as [Hp Ho].
+    apply andb_true_iff in Hp. destruct Hp as [Hn Ha].
+    rewrite dir_lines by assumption.
+    constructor; [left; reflexivity|]. constructor.
+    { unfold dir_head_line. apply ind_ok_indent_app. }
+    eapply Forall_impl; [intros l0 Hl0; apply ind_ok_weaken; exact Hl0|].
+    apply dir_rest_deeper; [exact Ho|].
+    rewrite forallb_forall in Hb. rewrite Forall_forall in IH |- *.
+    intros x Hx. apply (IH x Hx). exact (Hb x Hx).
+  - discriminate Hp.
+Qed.
+
+(* the content of a directive at depth d is at depth S d *)
+Theorem dir_content_deeper : forall hdrs lvl d n a o b, plain (Dir n a o b) = true ->
+  lines (elem_text hdrs lvl d (Dir n a o b))
+    = [] :: dir_head_line d n a :: dir_rest_lines hdrs d o b /\
+  Forall (ind_ok (S d)) (skipn 2 (lines (elem_text hdrs lvl d (Dir n a o b)))).
+Proof.
+  intros hdrs lvl d n a o b Hp. cbn [plain] in Hp.
+  apply andb_true_iff in Hp. destruct Hp as [Hp Hb].
+  apply andb_true_iff in Hp. destruct Hp as [Hp Ho].
+  apply andb_true_iff in Hp. destruct Hp as [Hn Ha].
+  rewrite dir_lines by assumption. split; [reflexivity|]. cbn [skipn].
+  apply dir_rest_deeper; [exact Ho|].
+  rewrite forallb_forall in Hb. apply Forall_forall. intros x Hx.
+  apply lines_indented. exact (Hb x Hx).
+Qed.
+
+(* non-vacuity: a directive nested 3 deep with options, a multi-line paragraph with its
+   own indentation, a bullet list and an enumerated list *)
+Definition ex_nested : elem :=
+  Dir (s"a") [s"x"; s"y"] [(s"o1", s"v1")]
+    [Para (s"line1" ++ [nl] ++ s"  own indent" ++ [nl] ++ [nl] ++ s"line4");
+     RList false [s"i1"; s"i2"];
+     Dir (s"b") [] [(s"k", s"v"); (s"k2", s"v2")]
+       [Field (s"f") (s"t");
+        Dir (s"c") [s"z"] []
+          [Para (s"deep" ++ [nl] ++ s" deeper"); RList true [s"one"; s"two"]]]].
+
+Example ex_nested_plain : plain ex_nested = true.
+Proof. vm_compute. reflexivity. Qed.
+
+Example ex_nested_lines :
+  lines (elem_text [s"#"; s"*"] 0 0 ex_nested)
+  = [ [];
+      s".. a:: x,y";
+      s"   :o1: v1";
+      [];
+      s"   line1";
+      s"     own indent";
+      s"   ";
+      s"   line4";
+      [];
+      s"   * i1";
+      s"   * i2";
+      [];
+      [];
+      s"   .. b:: ";
+      s"      :k: v";
+      s"      :k2: v2";
+      [];
+      [];
+      s"      :f: t";
+      [];
+      s"      .. c:: z";
+      [];
+      s"         deep";
+      s"          deeper";
+      [];
+      s"         1. one";
+      s"         2. two";
+      [];
+      [];
+      [];
+      [] ].
+Proof. vm_compute. reflexivity. Qed.
+
+Example ex_nested_indented :
+  Forall (ind_ok 1) (skipn 2 (lines (elem_text [s"#"; s"*"] 0 0 ex_nested))).
+Proof. apply (dir_content_deeper [s"#"; s"*"] 0 0). apply ex_nested_plain. Qed.
+
+(* the side conditions of `plain` are necessary: the expected-output line of a DocTest and
+   the continuation line of a field text with a newline are not indented *)
+Example doctest_not_indented :
+  ~ Forall (ind_ok 1) (lines (elem_text [] 0 1 (DocTest (s"f()") (s"42")))).
+Proof.
+  vm_compute. intros H.
+  inversion H as [|x1 r1 _ H1]; subst. inversion H1 as [|x2 r2 _ H2]; subst.
+  inversion H2 as [|x3 r3 H3 _]; subst. destruct H3 as [H3|H3]; discriminate H3.
+Qed.
+
+Example field_newline_not_indented :
+  ~ Forall (ind_ok 1) (lines (elem_text [] 0 1 (Field (s"Default value") (s"a" ++ [nl] ++ s"b")))).
+Proof.
+  vm_compute. intros H.
+  inversion H as [|x1 r1 _ H1]; subst. inversion H1 as [|x2 r2 _ H2]; subst.
+  inversion H2 as [|x3 r3 H3 _]; subst. destruct H3 as [H3|H3]; discriminate H3.
+Qed.
+
+(* ------------------------------------------------------------------ *)
+(* the state machine: updates and lookups along handles                 *)
+
+Definition sub_upd (p : list nat) (j : nat) (f : elem -> option elem) (e : elem)
+  : option elem :=
+  match e with
+  | Dir n a o body => option_map (Dir n a o) (upd_in_body p j f body)
+  | Sect t body => option_map (Sect t) (upd_in_body p j f body)
+  | _ => None
+  end.
+
+Definition sub_find (q : list nat) (j : nat) (lvl d : nat) (e : elem)
+  : option (elem * nat * nat) :=
+  match e with
+  | Dir _ _ _ body => find_in_body q j 0 (S d) body
+  | Sect _ body => find_in_body q j (S lvl) 0 body
+  | _ => None
+  end.
+
+Definition bind_opt {A B : Type} (x : option A) (f : A -> option B) : option B :=
+  match x with Some a => f a | None => None end.
+
+Lemma upd_in_body_nil : forall i f b,
+  upd_in_body [] i f b
+  = match nth_error b i with
+    | None => None
+    | Some e => match f e with
+                | Some e' => Some (update_nth i (fun _ => e') b)
+                | None => None
+                end
+    end.
+Proof. reflexivity. Qed.
+
+Lemma upd_in_body_cons : forall j p i f b,
+  upd_in_body (j :: p) i f b = upd_in_body [] i (sub_upd p j f) b.
+Proof.
+  intros j p i f b. rewrite upd_in_body_nil. cbn [upd_in_body].
+  destruct (nth_error b i) as [e|]; [|reflexivity].
+  destruct e; try reflexivity; cbn [sub_upd]; destruct (upd_in_body p j f body);
+    reflexivity.
+Qed.
+
+Lemma find_in_body_nil : forall k lvl d b,
+  find_in_body [] k lvl d b
+  = match nth_error b k with Some e => Some (e, lvl, d) | None => None end.
+Proof. reflexivity. Qed.
+
+Lemma find_in_body_cons : forall j q k lvl d b,
+  find_in_body (j :: q) k lvl d b
+  = match nth_error b k with Some e => sub_find q j lvl d e | None => None end.
+Proof.
+  intros. cbn [find_in_body]. destruct (nth_error b k) as [e|]; [|reflexivity].
+  destruct e; reflexivity.
+Qed.
+
+Lemma nth_error_update_nth_eq : forall (A : Type) (g : A -> A) b i,
+  nth_error (update_nth i g b) i = option_map g (nth_error b i).
+Proof.
+  intros A g b. induction b as [|x r IH]; intros i; destruct i as [|i]; try reflexivity.
+  cbn [update_nth nth_error]. apply IH.
+Qed.
+
+Lemma nth_error_update_nth_ne : forall (A : Type) (g : A -> A) b i k, i <> k ->
+  nth_error (update_nth i g b) k = nth_error b k.
+Proof.
+  intros A g b. induction b as [|x r IH]; intros i k H; [destruct i; reflexivity|].
+  destruct i as [|i]; destruct k as [|k]; try reflexivity; try congruence.
+  cbn [update_nth nth_error]. apply IH. congruence.
+Qed.
+
+Lemma update_nth_twice : forall (A : Type) (x y : A) b i,
+  update_nth i (fun _ => y) (update_nth i (fun _ => x) b) = update_nth i (fun _ => y) b.
+Proof.
+  intros A x y b. induction b as [|z r IH]; intros i; [destruct i; reflexivity|].
+  destruct i as [|i]; [reflexivity|]. cbn [update_nth]. rewrite IH. reflexivity.
+Qed.
+
+(* one level: composition, extensionality, domain *)
+Lemma upd_nil_compose : forall i f g b,
+  bind_opt (upd_in_body [] i f b) (upd_in_body [] i g)
+  = upd_in_body [] i (fun e => bind_opt (f e) g) b.
+Proof.
+  intros i f g b. rewrite !upd_in_body_nil.
+  destruct (nth_error b i) as [e|] eqn:E; [|reflexivity].
+  destruct (f e) as [e1|]; [|reflexivity]. cbn [bind_opt].
+  rewrite upd_in_body_nil, nth_error_update_nth_eq, E. cbn [option_map].
+  destruct (g e1) as [e2|]; [|reflexivity]. rewrite update_nth_twice. reflexivity.
+Qed.
+
+Lemma upd_nil_ext : forall i f g b, (forall e, f e = g e) ->
+  upd_in_body [] i f b = upd_in_body [] i g b.
+Proof.
+  intros i f g b H. rewrite !upd_in_body_nil.
+  destruct (nth_error b i) as [e|]; [|reflexivity]. rewrite H. reflexivity.
+Qed.
+
+Lemma upd_compose : forall p i f g b,
+  bind_opt (upd_in_body p i f b) (upd_in_body p i g)
+  = upd_in_body p i (fun e => bind_opt (f e) g) b.
+Proof.
+  intros p. induction p as [|j p IH]; intros i f g b; [apply upd_nil_compose|].
+  rewrite (upd_in_body_cons j p i f b).
+  transitivity (bind_opt (upd_in_body [] i (sub_upd p j f) b)
+                         (upd_in_body [] i (sub_upd p j g))).
+  { destruct (upd_in_body [] i (sub_upd p j f) b); [|reflexivity].
+    cbn [bind_opt]. apply upd_in_body_cons. }
+  rewrite upd_nil_compose, upd_in_body_cons. apply upd_nil_ext.
+  intros e. destruct e; try reflexivity; cbn [sub_upd].
+  - rewrite <- IH. destruct (upd_in_body p j f body); reflexivity.
+  - rewrite <- IH. destruct (upd_in_body p j f body); reflexivity.
+Qed.
+
+Lemma upd_ext : forall p i f g b, (forall e, f e = g e) ->
+  upd_in_body p i f b = upd_in_body p i g b.
+Proof.
+  intros p. induction p as [|j p IH]; intros i f g b H; [apply upd_nil_ext; exact H|].
+  rewrite !upd_in_body_cons. apply upd_nil_ext. intros e.
+  destruct e; try reflexivity; cbn [sub_upd]; rewrite (IH j f g body H); reflexivity.
+Qed.
+
+Lemma upd_dom : forall p i f g b, (forall e, f e <> None -> g e <> None) ->
+  upd_in_body p i f b <> None -> upd_in_body p i g b <> None.
+Proof.
+  intros p. induction p as [|j p IH]; intros i f g b H.
+  - rewrite !upd_in_body_nil. destruct (nth_error b i) as [e|]; [|auto].
+    specialize (H e). destruct (f e); [|congruence].
+    destruct (g e); [discriminate|]. intros _. exfalso. apply H; [discriminate | reflexivity].
+  - rewrite !upd_in_body_cons.
+    rewrite !upd_in_body_nil. destruct (nth_error b i) as [e|]; [|auto].
+    assert (Hs : sub_upd p j f e <> None -> sub_upd p j g e <> None).
+    { destruct e; try (intros X; exact X); cbn [sub_upd]; intros X.
+      - specialize (IH j f g body H).
+        destruct (upd_in_body p j f body); [|exact (False_ind _ (X eq_refl))].
+        destruct (upd_in_body p j g body); [discriminate|]. exfalso. apply IH; [discriminate | reflexivity].
+      - specialize (IH j f g body H).
+        destruct (upd_in_body p j f body); [|exact (False_ind _ (X eq_refl))].
+        destruct (upd_in_body p j g body); [discriminate|]. exfalso. apply IH; [discriminate | reflexivity]. }
+    destruct (sub_upd p j f e); [|congruence].
+    destruct (sub_upd p j g e); [discriminate|]. intros _. exfalso.
+    apply Hs; [discriminate | reflexivity].
+Qed.
